@@ -132,6 +132,7 @@ type World struct {
 	NewConn func(cs *ConnState) // called when a connection is first seen (before OnOpenHook)
 	states  map[uint64]bool
 	fairR, fairW, fairWait int
+	udpLn *kernel.Sock
 }
 
 type simLogger struct{ w *World }
@@ -153,6 +154,7 @@ func (w *World) Fail(prop, oracle, class, format string, a ...interface{}) {
 		if simrt.Tracing() {
 			simrt.Logf("VIOLATION %s/%s: %s", oracle, class, fmt.Sprintf(format, a...))
 		}
+		simrt.Finish() // the verdict is in: end the run at the next scheduling point
 		return
 	}
 	w.O.Probe("other_property_oracle_fired:" + prop + ":" + oracle)
